@@ -158,9 +158,15 @@ func (e *Env) modsOfCall(c *ssa.CallCommon, ms *modSet, visiting map[*ssa.Functi
 		return
 	}
 	if len(callee.Blocks) == 0 || !e.inModule(callee) {
-		// external function: may write memory reachable from its arguments
+		// external function: may write memory reachable from its arguments (looking through interface boxing)
 		for _, a := range c.Args {
-			for _, k := range reachableComps(a.Type(), 2) {
+			t := a.Type()
+			if mi, ok := a.(*ssa.MakeInterface); ok {
+				t = mi.X.Type()
+			} else if isInterface(t) {
+				ms.all = true // a boxed value of unknown dynamic type
+			}
+			for _, k := range reachableComps(t, 2) {
 				ms.comps[k] = true
 			}
 		}
